@@ -265,6 +265,7 @@ class Unit:
         mutparams = []
         rename = None
         sig_override = None
+        arm = None
         mode = 'clauses'
         cur = None
         for ln in spec:
@@ -308,6 +309,10 @@ class Unit:
             if m:
                 rename = m.group(1)
                 continue
+            m = re.match(r'arm\s+/(.*)/\s*=>\s*(fn\s+(\w+).*)$', t)
+            if m:
+                arm = (m.group(1), m.group(2).strip(), m.group(3))
+                continue
             if t == 'clauses':
                 mode = 'clauses'
                 continue
@@ -316,6 +321,21 @@ class Unit:
             else:
                 cur.append(ln)
 
+        if arm:
+            # R11: one match arm of a large function checked as a function of its own.  The anchor
+            # regex must end at the arm's opening `{`; the brace-matched block becomes the body,
+            # verbatim; the declared signature names the variables of the enclosing function the
+            # block reads.  Everything else of the enclosing function is dropped.
+            ms = X._find_code_regex(raw, arm[0])
+            if len(ms) != 1 or not ms[0].group(0).rstrip().endswith('{'):
+                raise X.AnchorError('fn %s: arm anchor /%s/ matched %d times (must match once and end at `{`)' % (name, arm[0], len(ms)))
+            b0 = ms[0].end() - 1
+            while raw[b0] != '{':
+                b0 -= 1
+            b1 = X.match_brace(raw, b0)
+            raw = arm[1] + ' ' + raw[b0:b1 + 1]
+            name = arm[2]
+            rw.bump('R11')
         txt = rw.r1(raw)
         txt = rw.r2(txt)
         txt = rw.r5(txt)
